@@ -192,7 +192,7 @@ pub mod http {
     }
     /// Request side: ghost map name -> value (first value; repeated header lines are outside this view).
     /// Response side: `appended` = values appended in order, `entity_hdrs` = "Entity::add_headers was applied".
-    pub struct HeaderMap { pub m: Ghost<Map<HeaderName, HeaderValue>>, pub entity_hdrs: Ghost<bool>, pub appended: Ghost<Seq<(HeaderName, HV)>>, pub entries: Ghost<Seq<(Seq<u8>, Seq<u8>)>> }
+    pub struct HeaderMap { pub m: Ghost<Map<HeaderName, HeaderValue>>, pub entity_hdrs: Ghost<bool>, pub appended: Ghost<Seq<(HeaderName, HV)>>, pub entries: Ghost<Seq<(Seq<u8>, Seq<u8>)>>, pub inserted: Ghost<Map<HeaderName, HV>> }
     /// A header name as yielded by iteration (`k.as_str().as_bytes()`).
     pub struct EntName { pub bytes: Vec<u8> }
     impl EntName {
@@ -209,12 +209,18 @@ pub mod http {
         { unimplemented!() }
     }
     impl HeaderMap {
-        pub fn new() -> (r: HeaderMap) ensures !r.entity_hdrs@, r.m@ == Map::<HeaderName, HeaderValue>::empty(), r.appended@.len() == 0, r.entries@.len() == 0 { HeaderMap { m: Ghost(Map::empty()), entity_hdrs: Ghost(false), appended: Ghost(Seq::empty()), entries: Ghost(Seq::empty()) } }
+        pub fn new() -> (r: HeaderMap) ensures !r.entity_hdrs@, r.m@ == Map::<HeaderName, HeaderValue>::empty(), r.appended@.len() == 0, r.entries@.len() == 0, r.inserted@ == Map::<HeaderName, HV>::empty() { HeaderMap { m: Ghost(Map::empty()), entity_hdrs: Ghost(false), appended: Ghost(Seq::empty()), entries: Ghost(Seq::empty()), inserted: Ghost(Map::empty()) } }
         #[verifier::external_body]
         pub fn iter(&self) -> (r: HdrIter<'_>) ensures r.rest@ == self.entries@ { unimplemented!() }
         #[verifier::external_body]
         pub fn get(&self, k: HeaderName) -> (r: Option<&HeaderValue>)
             ensures r.is_some() == self.m@.dom().contains(k), r matches Some(v) ==> *v == self.m@[k]
+        { unimplemented!() }
+        /// `insert` replaces the value stored under the name (response side: ghost map `inserted`).
+        #[verifier::external_body]
+        pub fn insert(&mut self, k: HeaderName, v: HeaderValue) -> (r: Option<HeaderValue>)
+            ensures final(self).inserted@ == old(self).inserted@.insert(k, v.v@), final(self).m == old(self).m, final(self).appended == old(self).appended,
+                    final(self).entity_hdrs == old(self).entity_hdrs, final(self).entries == old(self).entries
         { unimplemented!() }
         #[verifier::external_body]
         pub fn contains_key(&self, k: HeaderName) -> (r: bool) ensures r == self.m@.dom().contains(k) { unimplemented!() }
